@@ -10,7 +10,7 @@ for fn in sys.argv[1:]:
             continue
         sid, chk, tier, rc, nv = m.groups()
         cells = []
-        for l2 in lines[k + 1:k + 4]:
+        for l2 in (lines[k + 1:k + 4] if rc == '1' else []):
             c = re.match(r'\s+cell (\S+) args', l2)
             if c:
                 cells.append(c.group(1))
@@ -18,7 +18,8 @@ for fn in sys.argv[1:]:
 out = ['# Seeded changes: which checks catch which', '',
        'Each change was produced by an independent sub-agent (property text + scratch worktree only), passes the full test suite,',
        'and was confirmed by me on /repo HEAD (`tools/seed_reconfirm.sh`). Checks were run on a scratch worktree with the patch',
-       'applied (`tools/seed_eval.sh <id> <PROP> <tier>`). exit 1 = VIOLATION reported (caught); exit 0 = missed; exit 3 = harness could not decide.', '',
+       'applied (`tools/seed_eval.sh <id> <PROP> <tier>`). exit 1 = VIOLATION reported (caught); exit 0 = missed; exit 3 = harness could not decide.',
+       'Tier `quick` = the whole registered quick command of the property; `quick-targeted-cells` = the same command restricted with --only to the cell families aimed at the change (run while the machine was busy).', '',
        '| seed | breaks | check (tier) | result | violating cells (first 3) |', '|---|---|---|---|---|']
 for d in sorted(glob.glob('/verif/seeded/*/')):
     sid = os.path.basename(d.rstrip('/'))
